@@ -178,6 +178,19 @@ def model_check_codec(chk: Check, cfg: str, workers: int = 16, timeout: int = 30
     chk.add_tlc(f"MC_Codec/{cfg}", res)
 
 
+def model_check_encoder_machine(chk: Check) -> None:
+    """The operational encoder (staging buffers, failure at any sink write) refines the definitional
+    codec over the shape universe; the two non-vacuity probes must be violated."""
+    res = tlc.run_tlc("MC_EncoderMachine", cfg="MC_EncoderMachine.cfg", workers=16, timeout=3 * 3600, xmx="12g")
+    if not tlc.tlc_ok(res):
+        raise Machinery(f"MC_EncoderMachine failed:\n{res['out'][-2500:]}")
+    chk.add_tlc("MC_EncoderMachine", res)
+    for probe in ("NeverStages", "NeverFails"):
+        r = tlc.run_tlc("MC_EncoderMachine", cfg=f"MC_EncoderMachine_probe_{probe}.cfg", workers=8, timeout=3000, xmx="8g")
+        if f"Invariant {probe} is violated" not in r["out"]:
+            raise Machinery(f"non-vacuity probe {probe} was not violated\n{r['out'][-1500:]}")
+
+
 def model_check_machine(chk: Check, thorough: bool) -> None:
     """TotalDecoder: the operational decoder machine on every byte string up to a bound; the three
     non-vacuity probes must each be violated."""
@@ -338,6 +351,7 @@ def check_C02(chk: Check, replay: str | None) -> None:
         return _replay_file(chk, replay, {"C02"})
     thorough = chk.tier == "thorough"
     model_check_codec(chk, "MC_Codec_thorough.cfg" if thorough else "MC_Codec_quick.cfg")
+    model_check_encoder_machine(chk)
     replay_universe(chk, emit_universe(chk, "MC_Codec_emit2.cfg" if thorough else "MC_Codec_emit.cfg"), {"C02"})
     validate_wr(chk, 32 if thorough else 4, {"C02"})
 
